@@ -812,6 +812,149 @@ static void mode_cmp(int lo, int hi, int step, int win, int nrand)
 	}
 }
 
+
+/* ------------------------------------------------------------------ C11 */
+static const int SODS[] = {0, 1, 59, 60, 3599, 3600, 43199, 43200, 86398, 86399};
+static const long KSEC[] = {1, 59, 60, 61, 3599, 3600, 3601, 86399, 86400, 86401, 172800, 604799, 604800, 604801, 1000000,
+	31536000, 2147483647L};
+static const char *cal_fmt_t[NREP] = {"%FT%T", "%Y-%m-%c-%wT%T", "%G-W%V-%uT%T", "%Y-%jT%T", NULL, NULL, NULL, NULL, NULL};
+
+static struct dt_dt_s mkdt(int R, const int32_t *r, int sod, int *ok)
+{
+	struct dt_dt_s d = {DT_UNK};
+	d.d = mkval(R, r, ok);
+	dt_make_sandwich(&d, d.d.typ, DT_HMS);
+	d.t.hms.h = sod / 3600;
+	d.t.hms.m = sod / 60 % 60;
+	d.t.hms.s = sod % 60;
+	d.t.hms.ns = 0;
+	return d;
+}
+
+static int dt_matches(int R, struct dt_dt_s w, int tl, int tsod, char *got)
+{
+	char g2[128];
+	int okd = tl >= LDN_1601 && tl <= LDN_LAST && same_day(R, w.d, ROW(tl), g2);
+	int s = w.t.hms.h * 3600 + w.t.hms.m * 60 + w.t.hms.s;
+	sprintf(got, "%s %02u:%02u:%02u", g2, (unsigned)w.t.hms.h, (unsigned)w.t.hms.m, (unsigned)w.t.hms.s);
+	return okd && s == tsod;
+}
+
+static void mode_clock(int lo, int hi, int step, int nrand)
+{
+	static const int CR[] = {R_YMD, R_YMCW, R_YWD, R_YD, R_DAISY};
+	static const char *units[] = {"s", "m", "h"};
+	static const long mult[] = {1, 60, 3600};
+	char got[160], txt[64], dbuf[48];
+	for (int l = lo; l <= hi; l += step) {
+		const int32_t *r = ROW(l);
+		for (unsigned ri = 0; ri < 5; ri++) {
+			int R = CR[ri], ok;
+			for (unsigned si = 0; si < sizeof SODS / sizeof *SODS; si++) {
+				int sod = SODS[si];
+				struct dt_dt_s d = mkdt(R, r, sod, &ok);
+				if (!ok) continue;
+				/* additions */
+				for (unsigned ki = 0; ki < sizeof KSEC / sizeof *KSEC + (unsigned)nrand; ki++) {
+					for (int sg = -1; sg <= 1; sg += 2) {
+						for (int u = 0; u < 3; u++) {
+							static struct mkey *ka[NREP][3];
+							long k = ki < sizeof KSEC / sizeof *KSEC ? KSEC[ki] : (long)(rnd() % 4000000);
+							long long tot;
+							if (u && k > 40000000L) continue;    /* keep k*unit inside 2^31 */
+							if (u == 2 && k > 590000L) continue;
+							k *= sg;
+							tot = (long long)l * 86400 + sod + (long long)k * mult[u];
+							long long tl = tot >= 0 ? tot / 86400 : -((-tot + 86399) / 86400);
+							int tsod = (int)(tot - tl * 86400);
+							if (tl < LDN_1601 || tl > LDN_LAST) continue;
+							if (!ka[R][u]) { char kb[64]; sprintf(kb, "tadd %s %s", repname[R], units[u]); ka[R][u] = mk_get(kb); }
+							ev(ka[R][u]);
+							sprintf(dbuf, "%+ld%s", k, units[u]);
+							char *ep = NULL;
+							struct dt_dtdur_s du = dt_strpdtdur(dbuf, &ep);
+							struct dt_dt_s w = dt_dtadd(d, du);
+							if (!dt_matches(R, w, (int)tl, tsod, got)) {
+								reptext(txt, R, r);
+								mism(ka[R][u], l, "%s '%s' sod %d %s -> %s want %04d-%02d-%02d sod %d", repname[R], txt, sod, dbuf, got,
+								     ROW(tl)[F_Y], ROW(tl)[F_M], ROW(tl)[F_D], tsod);
+							}
+						}
+					}
+				}
+				/* epoch output and seconds difference against a second point */
+				{
+					static struct mkey *ke[NREP], *kd[NREP];
+					long long ux = (long long)UDAY_OF_LDN(l) * 86400 + sod;
+					if (!ke[R]) { char kb[64]; sprintf(kb, "epoch-out %s", repname[R]); ke[R] = mk_get(kb); }
+					ev(ke[R]);
+					size_t n = dt_strfdt(got, 64, "%s", d);
+					got[n] = 0;
+					if (strtoll(got, NULL, 10) != ux || dt_to_unix_epoch(d) != ux) {
+						reptext(txt, R, r);
+						mism(ke[R], l, "%s '%s' sod %d: %%s='%s' to_unix_epoch=%lld want %lld", repname[R], txt, sod, got,
+						     (long long)dt_to_unix_epoch(d), ux);
+					}
+					for (int q = 0; q < 3; q++) {
+						int l2 = q == 0 ? l + 1 : q == 1 ? l - 25000 - (int)(rnd() % 1000) : LDN_1601 + (int)(rnd() % (LDN_LAST - LDN_1601));
+						int sod2 = SODS[rnd() % 10], ok2;
+						if (l2 < LDN_1601 || l2 > LDN_LAST) continue;
+						struct dt_dt_s d2 = mkdt(R, ROW(l2), sod2, &ok2);
+						if (!ok2) continue;
+						if (!kd[R]) { char kb[64]; sprintf(kb, "tdiff %s", repname[R]); kd[R] = mk_get(kb); }
+						ev(kd[R]);
+						struct dt_dtdur_s df = dt_dtdiff(DT_DURS, d, d2);
+						long long want = ((long long)l2 - l) * 86400 + sod2 - sod;
+						long long gv = df.dv;
+						if (df.neg) gv = -gv;
+						if (gv != want) {
+							reptext(txt, R, r);
+							mism(kd[R], l, "%s '%s' sod %d to ldn %d sod %d: diff %lld s want %lld", repname[R], txt, sod, l2, sod2, gv, want);
+						}
+					}
+				}
+			}
+		}
+		/* epoch input: @N and %s parse to the civil date-time of the chain */
+		for (unsigned si = 0; si < 3; si++) {
+			KEY(ki, "epoch-in");
+			int sod = si == 0 ? 0 : si == 1 ? 86399 : (int)(rnd() % 86400);
+			long long ux = (long long)UDAY_OF_LDN(l) * 86400 + sod;
+			char *ep = NULL;
+			ev(ki);
+			sprintf(txt, "%lld", ux);
+			struct dt_dt_s e = dt_strpdt(txt, "%s", &ep);
+			struct dt_dt_s y = dt_dtconv((dt_dttyp_t)DT_YMD, e);
+			if (l >= 917327) continue;      /* day-count tail: known finding of C01 */
+			if (ux == 0) {
+				/* the value 0 is a case of its own (the parser tests the value for non-zero) */
+				KEY(kz, "epoch-in zero");
+				ki->evals--;
+				ev(kz);
+				if (!dt_matches(R_YMD, y, l, sod, got)) mism(kz, l, "epoch 0 -> %s want 1970-01-01 sod 0", got);
+				continue;
+			}
+			if (!dt_matches(R_YMD, y, l, sod, got)) {
+				mism(ki, l, "epoch %s -> %s want %04d-%02d-%02d sod %d", txt, got, r[F_Y], r[F_M], r[F_D], sod);
+			}
+		}
+		/* 24:00:00 denotes 00:00:00 of the following day */
+		if (l < LDN_LAST) {
+			KEY(km, "mil-midnight");
+			char *ep = NULL;
+			ev(km);
+			sprintf(txt, "%04d-%02d-%02dT24:00:00", r[F_Y], r[F_M], r[F_D]);
+			struct dt_dt_s e = dt_strpdt(txt, NULL, &ep);
+			size_t n = dt_strfdt(got, 64, "%F %M:%S %s", e);
+			got[n] = 0;
+			char want[96];
+			const int32_t *t = ROW(l + 1);
+			sprintf(want, "%04d-%02d-%02d 00:00 %lld", t[F_Y], t[F_M], t[F_D], (long long)UDAY_OF_LDN(l + 1) * 86400);
+			if (strcmp(got, want)) mism(km, l, "'%s' printed '%s' want '%s'", txt, got, want);
+		}
+	}
+}
+
 /* ------------------------------------------------------------------ trace events (direction B) */
 static void mode_trace(int lo, int hi, int step)
 {
@@ -881,6 +1024,8 @@ int main(int argc, char *argv[])
 		mode_biz(lo, hi, step, a1 ? a1 : 70);
 	} else if (!strcmp(mode, "cmp")) {
 		mode_cmp(lo, hi, step, a1 ? a1 : 40, a2);
+	} else if (!strcmp(mode, "clock")) {
+		mode_clock(lo, hi, step, a1);
 	} else if (!strcmp(mode, "trace")) {
 		mode_trace(lo, hi, step);
 		return 0;
